@@ -12,7 +12,7 @@ mkdir -p $DST
 cp $SRC/patch.diff $DST/patch.diff
 cp $SRC/demo_test.go $DST/demo_test.go
 cp $SRC/README.md $DST/agent_README.md
-TARGET=$(grep -m1 -o '[a-z/]*/[a-z0-9_]*_test\.go' $SRC/demo_test.go | head -1)
+TARGET=$(grep -m1 -oE "[a-z]+(/[a-z0-9_]+)*/[a-z0-9_]+_test\.go" $SRC/demo_test.go | head -1)
 WT=/tmp/wtv-$P-$M
 git -C /repo worktree add -q $WT HEAD
 cd $WT
